@@ -69,7 +69,7 @@ TExit == Is("oligo.worker_exit") /\ IsWorker /\ pc[W] = "exit" /\ Skip
 \* decoded output: size, no NUL byte left, one line per record (+ header), row i belongs to record i
 TFile == /\ Is("file") /\ Done /\ rowsSeen = 0 - 1
          /\ Ev.size = cap /\ Ev.nul = 0 /\ Ev.lines = cfg.n + (IF cfg.hdr THEN 1 ELSE 0)
-         /\ Covered = 0..(cap - 1) /\ cap = HdrLen + cfg.n * RowLen
+         /\ TotalLen = cap /\ cap = HdrLen + cfg.n * RowLen
          /\ rowsSeen' = (IF norows THEN cfg.n ELSE 0) /\ Consume /\ UNCHANGED <<mvars, started, norows>>
 \* rows come in file order: row i is the i-th decoded line and belongs to record i
 TRow == /\ Is("row") /\ Done /\ Ev.i = rowsSeen /\ Ev.rec = Ev.i /\ Ev.i \in 0..(cfg.n - 1)
